@@ -150,7 +150,7 @@ def rule_svd_finite(F, ev_unused, R, config, rule="R-SVD-FINITE"):
                 for ct, _c in recs:
                     eps, lim = ct[3][-2], ct[3][-1]
                     n = const_uint(lim)
-                    okb = (n is not None and n > 0) or (n == 0 and not input_dependent(eps))
+                    okb = (n is not None and n > 0) or ((n == 0 or n is None) and not input_dependent(eps))   # a computed limit is at worst `0 = none`
                     R.add(rule, config, b.key, "svd-iteration-bounded" + fl, okb,
                           "iteration limit %s, tolerance %s" % (short(lim)[:40], short(eps)[:60]) if okb else
                           "the decomposition is run with tolerance `%s` and iteration limit `%s`: an input-dependent tolerance (0 or NaN are "
